@@ -230,12 +230,13 @@ theorem scanSegment_ok (s e idx : Nat) (hs : 0 < s) (hse : s ≤ e) (id : Nat) (
     refine ⟨c1.σ, ?_, hst1, hout1, hls1, hle1⟩
     simp [metaOf, frameRecs, hk0, hmin1, hmax1, foldMin, foldMax, List.foldl_append]
 
-/-- the files of `d` hold the records `nx, nx+1, …` in order; only the last file may end in a torn frame, which
-then lies beyond `e` -/
+/-- the files of `d` hold the records `nx, nx+1, …` in order; only the last file may be empty or end in a torn
+frame, which then lies beyond `e` -/
 def RecsFrom (e : Nat) : Nat → Dir → Prop
   | _, [] => True
   | nx, x :: rest =>
-    IdsFrom nx x.2.recs ∧ (rest ≠ [] → x.2.torn = none) ∧ TornOK e (nx + x.2.recs.length) x.2.torn ∧
+    IdsFrom nx x.2.recs ∧ (rest ≠ [] → x.2.torn = none ∧ x.2.recs ≠ []) ∧
+      TornOK e (nx + x.2.recs.length) x.2.torn ∧
       RecsFrom e (nx + x.2.recs.length) rest
 
 /-- the complete records of a directory listed in order -/
